@@ -26,7 +26,8 @@ KNOWN = os.path.join(VERIF, "known_findings.txt")
 
 KANI_BASE = [
     "cargo", "kani", "-p", "open-coroutine-core", "--no-default-features", "--features", "syscall",
-    "-Z", "stubbing", "-Z", "unstable-options", "--ignore-global-asm", "--output-format", "terse",
+    "-Z", "stubbing", "-Z", "unstable-options", "--ignore-global-asm", "--no-assertion-reach-checks",
+    "--output-format", "terse",
 ]
 
 
@@ -177,7 +178,7 @@ def main(argv):
         if args.tier == "thorough":
             harnesses += list(g.get("thorough_harnesses", []))
         if args.only:
-            harnesses = [h for h in harnesses if args.only in h]
+            harnesses = [h for h in harnesses if re.search(args.only, h)]
             if not harnesses:
                 continue
         try:
@@ -213,9 +214,11 @@ def main(argv):
                 all_results[h] = r
             if args.keep:
                 log(f"scratch kept at {scratch}")
-            # counterexample extraction for failed harnesses (needed for replay)
+            # counterexample extraction (needed for replay) only for failures no known finding explains
             for h, r in res.items():
-                if r["failed"] and g.get("playback", True):
+                unexplained = [f for f in r["failed"]
+                               if not any(k["harness"] == h and k["check"] in f["description"] for k in known)]
+                if unexplained and g.get("playback", True):
                     r["playback"] = extract_playback(scratch, h, extra, timeout_s, g.get("mem_gb", 20))
         finally:
             if not args.keep:
